@@ -318,10 +318,68 @@ def three_ways(c, rf):
     return 2
 
 
+DIM_SQLS = ["status", "UPPER(status)", "CASE WHEN status = 'done' THEN 'closed' ELSE 'open' END", "COALESCE(status, 'n/a')", "status || '-' || channel", "CASE WHEN note = 'it''s' THEN 1 ELSE 0 END",
+            "'pre-' || status || '-post'", "CASE WHEN amount > 10 THEN 'big, really' ELSE 'small' END"]
+FILTER_SQLS = ["status IN ('done', 'shipped')", "amount > 0", "status = 'done'", "note <> 'it''s'", "status <> 'a, b'", "{model}.amount > 10", "status = 'x' OR status = 'y'"]
+SEGMENT_SQLS = ["status <> 'cancelled'", "{model}.status = 'a'", "status IN ('a', 'b') AND amount > 1", "note = 'it''s'"]
+
+
+def sql_quote(t):
+    """a property value of the SQL definition syntax written as ONE single-quoted literal, quotes doubled"""
+    return "'" + t.replace("'", "''") + "'"
+
+
+def three_ways_generated(c, rf, rng):
+    """the same definitions written in Python, in YAML (dumped by PyYAML) and in the SQL definition syntax with every expression written as a quoted literal: SQL expressions
+    with string constants, doubled quotes, commas inside constants, lists of such expressions"""
+    import yaml
+    from sidemantic import Dimension, Metric, Model, SemanticLayer
+    from sidemantic.core.segment import Segment
+    n = 0
+    for k in range(6 if c.tier == "quick" else 40):
+        dsql, seg = rng.choice(DIM_SQLS), rng.choice(SEGMENT_SQLS)
+        fls = rng.sample(FILTER_SQLS, rng.choice([1, 2, 3]))
+        Lp = dbutil.fresh_layer()
+        Lp.add_model(Model(name="orders", table="orders_t", primary_key="id", dimensions=[Dimension(name="status", type="categorical"), Dimension(name="stage", type="categorical", sql=dsql)],
+                           metrics=[Metric(name="rev", agg="sum", sql="amount"), Metric(name="frev", agg="sum", sql="amount", filters=list(fls))], segments=[Segment(name="seg", sql=seg)]))
+        ytext = yaml.safe_dump({"models": [{"name": "orders", "table": "orders_t", "primary_key": "id",
+                                            "dimensions": [{"name": "status", "type": "categorical"}, {"name": "stage", "type": "categorical", "sql": dsql}],
+                                            "metrics": [{"name": "rev", "agg": "sum", "sql": "amount"}, {"name": "frev", "agg": "sum", "sql": "amount", "filters": list(fls)}],
+                                            "segments": [{"name": "seg", "sql": seg}]}]})
+        stext = ("MODEL (name orders, table orders_t, primary_key id);\nDIMENSION (name status, type categorical);\nDIMENSION (name stage, type categorical, sql %s);\n"
+                 "METRIC (name rev, agg sum, sql amount);\nMETRIC (name frev, agg sum, sql amount, filters [%s]);\nSEGMENT (name seg, sql %s);\n" % (sql_quote(dsql), ", ".join(sql_quote(f) for f in fls), sql_quote(seg)))
+        d = tempfile.mkdtemp(prefix="c11_")
+        try:
+            open(os.path.join(d, "a.yml"), "w").write(ytext)
+            open(os.path.join(d, "b.sql"), "w").write(stext)
+            layers = []
+            for name, fn in (("YAML", "a.yml"), ("SQL definitions", "b.sql")):
+                try:
+                    layers.append((name, SemanticLayer.from_yaml(os.path.join(d, fn), connection="duckdb:///:memory:")))
+                except Exception as e:
+                    c.violation("definitions written in %s cannot be loaded: %s" % (name, str(e)[:150]), {"kind": "syntax_gen", "syntax": name, "yaml": ytext, "sql_definitions": stext})
+        finally:
+            import shutil
+            shutil.rmtree(d, ignore_errors=True)
+        qs = [dict(metrics=["orders.rev", "orders.frev"], dimensions=["orders.stage"]), dict(metrics=["orders.rev"], dimensions=["orders.status"], segments=["orders.seg"])]
+        ref = [Lp.compile(**q) for q in qs]
+        for name, L in layers:
+            try:
+                got = [L.compile(**q) for q in qs]
+            except Exception as e:
+                got = ["ERROR " + str(e)[:100]]
+            n += 1
+            if got != ref:
+                k_bad = next(i for i in range(len(ref)) if i >= len(got) or got[i] != ref[i])
+                c.violation("the same definitions written in Python and in %s compile differently" % name,
+                            {"kind": "syntax_gen", "syntax": name, "yaml": ytext, "sql_definitions": stext, "sql_python": ref[k_bad][:900], "sql_other": (got[k_bad] if k_bad < len(got) else got[0])[:900]})
+    return n
+
+
 def run(c):
     c.trusted += ["translator/gen_native.py (fail-closed AST extraction of the export / parse tables; the export table is re-validated against the real exporter's written keys each run)",
                   "Model/Native.result_fields: the hand-written list of result-affecting fields per class (presentation fields such as description / label / format / metadata are not claimed)",
-                  "PyYAML dump / safe_load as the carrier (values are YAML-representable scalars and lists)", "the SQL definition syntax is exercised on one fixed definition only"]
+                  "PyYAML dump / safe_load as the carrier (values are YAML-representable scalars and lists)", "the SQL definition syntax is exercised on one fixed definition and on generated definitions whose expressions are written as quoted literals (string constants, doubled quotes, commas, lists)"]
     from translator import gen_native
     try:
         lib.write_if_changed(os.path.join(lib.COQ, "Gen", "NativeFields_gen.v"), gen_native.generate(lib.REPO))
@@ -373,6 +431,8 @@ def run(c):
         if len(c.samples) < 2:
             c.samples.append({"yaml_excerpt": text[:400], "queries": len(sa), "fields_compared": sum(len(v) if isinstance(v, dict) else 1 for v in a.values())})
     evals += stats["graphs"] + three_ways(c, rf)
+    import random as _random
+    evals += three_ways_generated(c, rf, _random.Random(c.seed * 11 + 4))
     c.obligation("oracle: result-affecting fields, compiled SQL of %d queries and routing unchanged after to_yaml -> from_yaml (%d graphs); Python == YAML == SQL definitions" % (len(BATTERY), stats["graphs"]),
                  not c.violations, "correspondence")
     c.coverage.update({"evaluations": evals + stats["queries_compiled"], "distinct_nontrivial": stats["graphs"],
